@@ -83,7 +83,7 @@ def split_rule(ctx, rule, dv):
                  and c.args and dv.fold_str(c.args[0]) == "="]
         for c in parts:
             ctx.instance(rule, f"Codec.decode[{short(c, 40)}]", True)
-    ctx.floor(rule, 3)
+    ctx.floor(rule, 2)
 
 
 # ------------------------------------------------------------------------------ rule 3
